@@ -135,6 +135,64 @@ CLAIMS['C16'] = dict(
   note='Not decided: that mantissas stay in range for thousands of dimensions, rounding, coincidence of stabilised and plain '
        'values. Ledger axioms for qr/rq/svd/eigh are trusted.')
 
+CLAIMS['C05'] = dict(
+  technique='symbolic shape typing of every fold / return path with independent rank symbols per maxvol call + freshness and cache-flow rules',
+  text='Decides the structural part only: every fold of the pending factor, the QR/maxvol interface, request widths and answer fold '
+       'are dimension consistent and every return path (incl. interruptions) is a well-formed tensor of the original mode sizes; '
+       'info r/e/e_vld are recomputed from the returned tensor after its last core store, e against a copy from the head of the '
+       'sweep; the cache argument reaches only the request wrapper, with_cache and the callback options; cached and uncached '
+       'branches return float arrays in batch order; cache entries pair index k with value k; only unseen indices are evaluated.',
+  note='Not decided: that maxvol/QR interpolation reproduces a rank-rho tensor, genericity, bit-level equality of cached and '
+       'uncached runs; the Kronecker order of the index assembly is left to the existing accuracy tests. utils._maxvol enters '
+       'through a summary axiom (validated for maxvol by C08).')
+CLAIMS['C08'] = dict(
+  technique='abstract execution of the rejections with literal shapes + shape typing + select/mask ordering rule + guarded-division rule',
+  text='Decides a narrow structural part: maxvol rejects n <= r and accepts tall input, maxvol_rect rejects inconsistent '
+       'dr_min/dr_max, _maxvol clamps before an exhaustive dispatch; maxvol returns (int [r], [n, r]) and the LU / triangular '
+       'solves / rank-one update / identity rows are dimension consistent; in maxvol_rect a selected row is masked before F is '
+       're-masked in the same iteration and the maxvol rows are masked first; the pivot division is behind the |B[i,j]| <= e '
+       'break and the Sherman-Morrison factor divides by 1 + squared norm.',
+  note='Not decided (the numerical core): A = B A[I], max|B| <= e, row-norm bound, distinctness as a value fact. The column '
+       'growth of maxvol_rect is widened (shape of B only partly typed).')
+CLAIMS['C13'] = dict(
+  technique='symbolic 2x2 transfer-pattern check of the core slot stores + shape typing + build-order / object-state (alias) rules',
+  text='Decides the structural part only: with noise 0 the slot stores of ANOVA.cores_1 propagate [1, S] to [1, S + f] and close to '
+       'f0 + sum f for every d; order-1 results have ranks equal to r; the order-2 cap is forwarded; pair-term tensors are '
+       'dimension consistent; build_0 < build_1 < build_2 and f1 = conditional mean - f0, f0 = mean; cores/calc/sample never '
+       'write arrays owned by the object; functional variant: coefficient offset agreement; noise from self.rand.',
+  note='Not decided: values of conditional means, truncation error for order 2, ridge-fit accuracy.')
+CLAIMS['C15'] = dict(
+  technique='layout facet (ordered products through kron / reshape) + pivot, ledger, value-provenance and ordering rules',
+  text='Decides the structural part only: in both sweep directions of the beam search the candidate matrix and both halves of the '
+       'extended index table enumerate the composite row in the same order and are filtered by the same selection; pivot = first '
+       'core per direction; 2**(p/d) once per core; every reported value is get(Y, i) of the argument at the reported index; '
+       '(i_min, y_min, i_max, y_max) ordered by the comparison; optima_qtt rejections and back-mapping with the same q.',
+  note='Not decided: exactness under a full beam / rank 1, numerical range of candidate norms (overflow of squares), '
+       'optima_tt_maxvol.')
+CLAIMS['C17'] = dict(
+  technique='layout facet with tagged binary modes + pairing rule for ravel/unravel + shape typing at mode sizes 2,4,8 + abstract rejections',
+  text='Decides the structural part only: core_qtt_to_tt merges binary modes first-core-fastest (little-endian), the index maps use '
+       'ravel/unravel with equal dims, order="F" and equal column blocks (the same convention); core_tt_to_qtt at mode sizes '
+       '2, 4, 8 returns q cores of mode size 2 whose outer bonds are exactly the original ranks and whose inner bonds chain; '
+       'tt_to_qtt / qtt_to_tt results well formed; e, r forwarded; non-powers of two rejected, powers accepted.',
+  note='Not decided: accuracy of the round trip; digit order produced by the halving loop as values.')
+CLAIMS['C18'] = dict(
+  technique='rational-function normal forms of the node formulas (composition = identity, endpoints) + clamp, rejection and shape rules',
+  text='Decides: poi_to_ind (before rounding) composed with ind_to_poi is the identity as a rational-function identity for uniform '
+       'and Chebyshev grids (arccos(cos u) = u on [0, pi]); index 0 / n-1 map to the documented box ends; scaling maps a, b to '
+       'the canonical ends; after scaling and after rounding both clamps follow with matching bounds; unknown kinds, inconsistent '
+       'option lengths and scalar options without d are rejected; option broadcasting, batches, grid_flat and cdf_getter are '
+       'dimension consistent with the right result shapes.',
+  note='Not decided: floating-point round trip at cell boundaries, nearest-node ties, enumeration order of grid_flat as values.')
+CLAIMS['C19'] = dict(
+  technique='scalar-degree facet + symbolic 2x2 transfer pattern + shape typing + constant-folded index helpers',
+  text='Decides the structural part only: const / delta carry v with total degree 1 on both branches of the tiny-value test; '
+       'vector_delta / matrix_delta store v into exactly one core; poly cores propagate and close the running sum; all '
+       'constructors return well-formed tensors of the requested shape and rank profile and the flat random vector is cut into '
+       'pieces of exactly n r r entries; index helpers reject out-of-range positions, normalise negatives and emit little-endian '
+       'digits (folded for q <= 3); zero entries of const only under their guard; random constructors draw from _rand(seed).',
+  note='Not decided: distribution of random entries, entries of order one for rand_stab.')
+
 _PENDING = 'check not built yet in this session (see DESIGN.md section 7 build order); not claimed'
 NOT_APPLICABLE = {p: _PENDING for p in
                   ['C01', 'C02', 'C03', 'C04', 'C05', 'C06', 'C07', 'C08', 'C11', 'C12', 'C13', 'C14',
